@@ -11,31 +11,48 @@ use serde_json::{json, Value};
 thread_local! {
     /// most bytes one `read` call of the harness reader hands out (usize::MAX = everything available)
     static CHUNK: std::cell::Cell<usize> = const { std::cell::Cell::new(usize::MAX) };
+    /// stream position at which the harness reader stands when it is handed to a decoder
+    static BASE: std::cell::Cell<usize> = const { std::cell::Cell::new(0) };
 }
 
-/// `io::Read` over a byte slice that, like a socket or a small `BufReader`, may deliver fewer bytes
-/// per call than asked for (never 0 before the end). Same interface as `io::Cursor` where it is used.
+/// `io::Read + io::Seek` over a byte slice that, like a socket or a small `BufReader`, may deliver fewer
+/// bytes per call than asked for (never 0 before the end), and that - like a reader in the middle of a
+/// capture file - may stand at a stream position other than 0 when it is handed over: the bytes sit at
+/// stream positions `base..base+len`, positions below `base` read as 0xEE. `position()` is relative to
+/// where the reader stood at the start, like `io::Cursor::position` for a fresh cursor.
 struct Cursor<'a> {
     b: &'a [u8],
+    base: usize,
     pos: usize,
 }
 
 impl<'a> Cursor<'a> {
     fn new(b: &'a [u8]) -> Self {
-        Cursor { b, pos: 0 }
+        let base = BASE.with(|c| c.get());
+        Cursor { b, base, pos: base }
     }
     fn position(&self) -> u64 {
-        self.pos as u64
+        // a position in front of the start (absolute seek by a decoder that assumes it began at 0)
+        // shows up as a huge value and therefore as a difference
+        (self.pos as u64).wrapping_sub(self.base as u64)
     }
 }
 
 impl std::io::Read for Cursor<'_> {
     fn read(&mut self, buf: &mut [u8]) -> std::io::Result<usize> {
-        let n = buf.len().min(self.b.len().saturating_sub(self.pos)).min(CHUNK.with(|c| c.get()));
+        let chunk = CHUNK.with(|c| c.get());
+        if self.pos < self.base {
+            let n = buf.len().min(self.base - self.pos).min(chunk);
+            buf[..n].fill(0xee);
+            self.pos += n;
+            return Ok(n);
+        }
+        let at = self.pos - self.base;
+        let n = buf.len().min(self.b.len().saturating_sub(at)).min(chunk);
         if n == 0 {
             return Ok(0);
         }
-        buf[..n].copy_from_slice(&self.b[self.pos..self.pos + n]);
+        buf[..n].copy_from_slice(&self.b[at..at + n]);
         self.pos += n;
         Ok(n)
     }
@@ -55,7 +72,7 @@ impl std::io::Seek for Cursor<'_> {
     fn seek(&mut self, to: std::io::SeekFrom) -> std::io::Result<u64> {
         let p = match to {
             std::io::SeekFrom::Start(n) => n as i128,
-            std::io::SeekFrom::End(d) => self.b.len() as i128 + d as i128,
+            std::io::SeekFrom::End(d) => (self.base + self.b.len()) as i128 + d as i128,
             std::io::SeekFrom::Current(d) => self.pos as i128 + d as i128,
         };
         if p < 0 {
@@ -832,6 +849,47 @@ fn read_vs_slice(b: &[u8], ctx: &mut Ctx, out: &mut Vec<PairDiff>) -> u32 {
             }
         );
     }
+    // the two ways of skipping IPv6 extension headers without decoding them
+    for start in [0u8, 43, 44, 51, 60, 135, 139, 140, 17] {
+        cmp!(
+            format!("Ipv6Header::skip_header_extension({})", start),
+            match Ipv6Header::skip_header_extension_in_slice(b, IpNumber(start)) {
+                Ok((n, r)) => HdrOut::Ok { header: format!("next={}", n.0), consumed: rest_len(r) },
+                Err(l) => len_out(&l),
+            },
+            {
+                let mut c = Cursor::new(b);
+                let r = Ipv6Header::skip_header_extension(&mut c, IpNumber(start)).map(|n| format!("next={}", n.0));
+                match r {
+                    Ok(h) => HdrOut::Ok { header: h, consumed: c.position() as usize },
+                    Err(e) if e.kind() == std::io::ErrorKind::UnexpectedEof => HdrOut::Short,
+                    Err(e) => HdrOut::OtherLen(format!("io error {:?}", e.kind())),
+                }
+            }
+        );
+        cmp!(
+            format!("Ipv6Header::skip_all_header_extensions({})", start),
+            match Ipv6Header::skip_all_header_extensions_in_slice(b, IpNumber(start)) {
+                Ok((n, r)) => HdrOut::Ok { header: format!("next={}", n.0), consumed: rest_len(r) },
+                Err(l) => {
+                    if l.required_len > l.len && l.len_source == LenSource::Slice {
+                        HdrOut::Short
+                    } else {
+                        HdrOut::OtherLen(format!("{:?}", l))
+                    }
+                }
+            },
+            {
+                let mut c = Cursor::new(b);
+                let r = Ipv6Header::skip_all_header_extensions(&mut c, IpNumber(start)).map(|n| format!("next={}", n.0));
+                match r {
+                    Ok(h) => HdrOut::Ok { header: h, consumed: c.position() as usize },
+                    Err(e) if e.kind() == std::io::ErrorKind::UnexpectedEof => HdrOut::Short,
+                    Err(e) => HdrOut::OtherLen(format!("io error {:?}", e.kind())),
+                }
+            }
+        );
+    }
     cmp!(
         "Ipv4Extensions(51)",
         match Ipv4Extensions::from_slice(IpNumber(51), b) {
@@ -1112,6 +1170,14 @@ pub fn check(start: Start, b: &[u8], ranges: &[usize], ctx: &mut Ctx) -> Result<
     };
     CHUNK.with(|c| c.set(chunk));
     ctx.class(if chunk == usize::MAX { "reader:whole" } else { "reader:chunked" });
+    // ... and need not stand at stream position 0 (decoders that skip with Seek must do so relatively)
+    let base = match fnv64(b) >> 11 & 3 {
+        0 | 1 => 0,
+        2 => 5,
+        _ => 4096,
+    };
+    BASE.with(|c| c.set(base));
+    ctx.class(if base == 0 { "reader:at-0" } else { "reader:mid-stream" });
     let res = catch(|| {
         let mut nt = false;
         if start == Start::Ip {
